@@ -74,6 +74,8 @@ class Sched(object):
         self.trace_log = []                   # (thread, file:line) at each switch
         self.timeout = timeout
         self.pos = 0
+        self.record = False
+        self.where = [[] for _ in fns]       # with `record`: the location of every yield point, per thread
         self.blocked = [None] * self.n        # the CoopLock a thread waits for
         self.idents = {}
         self.lock_blocks = 0
@@ -119,6 +121,8 @@ class Sched(object):
     def _yield_point(self, tid, where):
         """called before a line of interest executes in thread `tid` (which holds the token)"""
         self.events[tid] += 1
+        if self.record:
+            self.where[tid].append(where)
         while self.pos < len(self.plan):
             seg = self.plan[self.pos]
             if seg[0] != tid:
@@ -194,8 +198,9 @@ class Sched(object):
                 setattr(m, k, v)
 
 
-def run_alone(fn, files, lock_modules=()):
-    """yield points of one program run alone (the length of its schedule axis)"""
+def run_alone(fn, files, lock_modules=(), record=False):
+    """yield points of one program run alone (the length of its schedule axis; with `record` their locations)"""
     s = Sched([fn], [], files)
+    s.record = record
     res = s.run(lock_modules)
-    return res[0], s.events[0]
+    return (res[0], s.where[0]) if record else (res[0], s.events[0])
